@@ -516,11 +516,15 @@ func (e *Explorer) Explore(scs []*Scenario) {
 		return
 	}
 	for bi, b := range e.Bounds {
-		e.states = map[[16]byte]int8{}
 		execBefore := e.Rep.Executions
 		e.unit = 0
 		for _, sc := range scs {
 			for _, env := range envCombos(sc.EnvDims) {
+				// the table of reached states used for pruning belongs to ONE scenario under ONE environment: the state key
+				// (component dump, thread pcs, observations) names neither, and states of different scenarios or of another
+				// map rotation / select order have different futures even when their keys coincide (found in round four:
+				// the table used to be reset per bound only, which silently pruned later scenarios against earlier ones)
+				e.states = map[[16]byte]int8{}
 				e.exploreScenario(sc, env, b)
 				if e.timedOut {
 					break
